@@ -16,7 +16,7 @@ RULE = ("clique_equation(tau) with tau-1 distinct symbols and chordless_cycle_eq
         "Q(n,k) for larger n against an independent recursion validated against that enumeration; "
         "number_of_connected_graphs for every labelled substrate graph, focal vertex, vertex subset and k against "
         "bit-mask enumeration; non-trivial = one (function, argument) pair with a non-zero expected value")
-BOUNDS = {"quick": "tau 2..6; cycles 3..10; Q, QQ: n 1..6 all k by enumeration, Q: n 7..12 all k by reference "
+BOUNDS = {"quick": "tau 2..6 (distinct symbols, all equal, and every pattern of equalities); cycles 3..10; Q, QQ: n 1..6 all k by enumeration, Q: n 7..22 all k by reference "
                    "recursion; counter: all labelled graphs on <= 4 vertices",
           "thorough": "tau 2..7; cycles 3..14; Q by enumeration to n=7; counter: all labelled graphs on <= 5 vertices"}
 ASSUMPTIONS = ["for n >= 7 (8 in thorough) Q(n,k) is compared with a reference recursion (exponential formula over the "
@@ -32,7 +32,8 @@ def instances(tier, seed):
         yield {"kind": "cycle", "n": n}
     for n in range(1, (7 if tier == "quick" else 8)):
         yield {"kind": "Qenum", "n": n}
-    yield {"kind": "Qref", "lo": 7 if tier == "quick" else 8, "hi": 12}
+    for lo, hi in ((7 if tier == "quick" else 8, 12), (13, 16), (17, 19), (20, 22)):
+        yield {"kind": "Qref", "lo": lo, "hi": hi}
     maxn = 4 if tier == "quick" else 5
     for n in range(1, maxn + 1):
         masks = list(enumr.labelled_graph_masks(n))
@@ -102,6 +103,34 @@ def run_instance(inst, tier):
                               f"on K_{tau}: {diff_summary(got, want)}", inst)
         except Exception as e:
             res.violation("C16:clique-equation-raises", f"tau={tau}: {e!r}", inst)
+        # every pattern of equalities among the neighbour values (set partitions of the tau-1 positions)
+        def partitions(n):
+            if n == 0:
+                yield []
+                return
+            for part in partitions(n - 1):
+                for i in range(len(part) + 1):
+                    yield part[:i] + [part[i] + [n - 1]] + part[i + 1:] if i < len(part) else part + [[n - 1]]
+        if tau <= 6:
+            for part in partitions(tau - 1):
+                if len(part) in (1, tau - 1):
+                    continue  # all equal / all distinct are covered separately
+                sym = {}
+                for bi, block in enumerate(part):
+                    for pos in block:
+                        sym[pos] = Poly.var(f"w{bi}")
+                hs = [sym[i] for i in range(tau - 1)]
+                wantp = perc.expectation_poly(verts, edges, 0, p, {v: hs[v - 1] for v in verts[1:]} | {0: Poly.const(1)})
+                res.executions += 1
+                try:
+                    gotp = Poly.lift(clique_equation(tau, p, hs))
+                    if gotp != wantp:
+                        res.violation("C16:clique-equation", f"tau={tau}, neighbour values equal in blocks {part}: "
+                                      f"differs from the exact expectation: {diff_summary(gotp, wantp)}", inst)
+                        break
+                except Exception as e:
+                    res.violation("C16:clique-equation-raises", f"tau={tau} blocks {part}: {e!r}", inst)
+                    break
         # also with all neighbours equal and with numeric phi (common usage)
         uu = Poly.var("u")
         want2 = perc.expectation_poly(verts, edges, 0, p, {v: uu for v in verts})
